@@ -253,8 +253,10 @@ def shorthands(chk, F):
                     if any(not v.subset(r) for _, v, r in ranges):
                         status, why = 'refuted', 'returns for out-of-range arguments %r' % [(x, repr(v)) for x, v, r in ranges]
                         continue
-                    if any(v != r for _, v, r in ranges):
-                        status, why = 'refuted', 'valid arguments split or rejected: accepted box %r' % [(x, repr(v)) for x, v, r in ranges]
+                    # (the accepted inputs may be spread over several returning paths - a range check by `leading_zeros`
+                    # splits them; every in-range input lies on some path, and a panicking path must have an argument
+                    # entirely out of range, so it is enough that each returning path stays inside the valid box)
+                    accepted = [(x, v if accepted is None else v.join(dict((y, w) for y, w, _ in accepted)[x]), r) for x, v, r in ranges]
                     tup = o.value.fields[0] if isinstance(o.value, Ag) and o.value.path == H.RAW else None
                     if tup is None:
                         status, why = 'refuted', 'result %r is not a RawShortMessage' % (o.value,)
@@ -265,6 +267,8 @@ def shorthands(chk, F):
                         found.append(fmt_bits(got))
                     if got != want:
                         status, why = 'refuted', 'bytes (%s), expected (%s)' % (fmt_bits(got), fmt_bits(want))
+                if accepted is not None and status == 'proved' and any(v != r for _, v, r in accepted):
+                    status, why = 'refuted', 'valid arguments rejected: accepted only %r' % [(x, repr(v)) for x, v, r in accepted]
             chk.ob(key, 'shorthand', status, subject=fn_subject(F, fk), expected='%s %s, panic exactly for out-of-range arguments' % (tname, roles),
                    found=found, why=why)
         guarded(chk, key, 'shorthand', ev2)
@@ -285,7 +289,7 @@ def shorthands(chk, F):
             vs = [vs_of(a.term, o.st.cons) for a in args]
             if o.kind == 'return':
                 tup = o.value.fields[0] if isinstance(o.value, Ag) and o.value.path == H.RAW else None
-                ok = all(v.subset(w) for v, w in zip(vs, want)) and vs[1:] == want[1:] and tup is not None \
+                ok = all(v.subset(w) for v, w in zip(vs, want)) and tup is not None \
                     and [H.scalar_of(x).term for x in tup.fields] == [a.term for a in args]
                 acc = [x.join(v) for x, v in zip(acc, vs)]
                 if not ok:
@@ -322,7 +326,8 @@ def run(tier, cmd):
         tr = F.traits.get(H.SMF, {'items': []})
         defaults = {it['name'] for it in tr['items'] if it['has_default']}
         for ty, im in c01.factory_types(F):
-            ov = [it['name'] for it in im['items'] if it['name'] in defaults]
+            # (from_bytes / from_other are not constructors of this property: C01 interprets their overrides)
+            ov = [it['name'] for it in im['items'] if it['name'] in defaults and it['name'] not in ('from_bytes', 'from_other')]
             chk.ob('%s/factory-overrides/%s/%s' % (PID, cfg, ty['path'].split('::')[-1]), 'override inventory',
                    'proved' if not ov else 'unproven', subject={'at': im['span']['at']}, found=ov,
                    why='overriding constructor bodies are not covered' if ov else '', nontrivial=False)
